@@ -35,14 +35,40 @@ func (v *IndexView) CreateMany(ctx context.Context, indexes []mongo.IndexModel, 
 		panic("lungo: missing indexes")
 	}
 
-	// created indexes separately
-	var names []string
+	// prepare indexes
+	names := make([]string, 0, len(indexes))
+	configs := make([]mongokit.IndexConfig, 0, len(indexes))
 	for _, index := range indexes {
-		name, err := v.CreateOne(ctx, index, opts...)
+		name, config, err := prepareIndex(index)
 		if err != nil {
-			return names, err
+			return nil, err
 		}
 		names = append(names, name)
+		configs = append(configs, config)
+	}
+
+	// begin transaction
+	txn, err := v.engine.Begin(ctx, true)
+	if err != nil {
+		return nil, err
+	}
+
+	// ensure abortion
+	defer v.engine.Abort(txn)
+
+	// create all indexes in the same transaction so that either all of them
+	// or none of them are created
+	for i, config := range configs {
+		names[i], err = txn.CreateIndex(v.handle, names[i], config)
+		if err != nil {
+			return nil, err
+		}
+	}
+
+	// commit transaction
+	err = v.engine.Commit(txn)
+	if err != nil {
+		return nil, err
 	}
 
 	return names, nil
@@ -50,14 +76,16 @@ func (v *IndexView) CreateMany(ctx context.Context, indexes []mongo.IndexModel, 
 
 // CreateOne implements the IIndexView.CreateOne method.
 func (v *IndexView) CreateOne(ctx context.Context, index mongo.IndexModel, opts ...*options.CreateIndexesOptions) (string, error) {
-	// merge options
-	opt := options.MergeCreateIndexesOptions(opts...)
+	// create index
+	names, err := v.CreateMany(ctx, []mongo.IndexModel{index}, opts...)
+	if err != nil {
+		return "", err
+	}
 
-	// assert supported options
-	assertOptions(opt, map[string]string{
-		"MaxTime": ignored,
-	})
+	return names[0], nil
+}
 
+func prepareIndex(index mongo.IndexModel) (string, mongokit.IndexConfig, error) {
 	// assert supported index options
 	if index.Options != nil {
 		assertOptions(index.Options, map[string]string{
@@ -73,7 +101,7 @@ func (v *IndexView) CreateOne(ctx context.Context, index mongo.IndexModel, opts 
 	// transform key
 	key, err := bsonkit.Transform(index.Keys)
 	if err != nil {
-		return "", err
+		return "", mongokit.IndexConfig{}, err
 	}
 
 	// get expiry
@@ -103,37 +131,16 @@ func (v *IndexView) CreateOne(ctx context.Context, index mongo.IndexModel, opts 
 	if index.Options != nil && index.Options.PartialFilterExpression != nil {
 		partial, err = bsonkit.Transform(index.Options.PartialFilterExpression)
 		if err != nil {
-			return "", err
+			return "", mongokit.IndexConfig{}, err
 		}
 	}
 
-	// begin transaction
-	txn, err := v.engine.Begin(ctx, true)
-	if err != nil {
-		return "", err
-	}
-
-	// ensure abortion
-	defer v.engine.Abort(txn)
-
-	// create index
-	name, err = txn.CreateIndex(v.handle, name, mongokit.IndexConfig{
+	return name, mongokit.IndexConfig{
 		Key:     key,
 		Unique:  unique,
 		Partial: partial,
 		Expiry:  expiry,
-	})
-	if err != nil {
-		return "", err
-	}
-
-	// commit transaction
-	err = v.engine.Commit(txn)
-	if err != nil {
-		return "", err
-	}
-
-	return name, nil
+	}, nil
 }
 
 // DropAll implements the IIndexView.DropAll method.
